@@ -10,19 +10,23 @@ SEVS = ["trace", "debug", "info", "warn", "error", "fatal"]
 #   Z = null_filter, T<k> = severity_filter<Record,k>, A = and_filter, O = or_filter, N = not_filter
 #   record type A = record<tag, message, severity, timestamp>; B = record<message, severity, timestamp, extra> (NO tag attribute).
 #   severity_filter<RecA,k> and severity_filter<RecB,k> are different class template instances with their own thresholds.
+#   sink shape: a tree of sink::sequence; leaves by the way their sink() takes the text:
+#     c  sink(severity_level, const std::string&)      v  sink(severity_level, std::string)  (by value)
+#     r  overloads for const std::string& and std::string&& (the latter adopts the buffer);  ( … ) a sequence, possibly nested.
+#   By-value / rvalue / nested members occur in first, middle and last position; 1-4 leaves.
 LOGGERS = [
-    ("Z", 3, "A"),
-    ("T0", 1, "A"),
-    ("NT0", 2, "A"),
-    ("AT0T1", 2, "A"),
-    ("OT0T1", 2, "A"),
-    ("AT0NT1", 2, "A"),       # band: T0 <= sev < T1
-    ("ONT0T1", 2, "A"),
-    ("NAT0T1", 2, "A"),
-    ("NNT0", 2, "A"),         # the not_filter<not_filter<F>> specialisation
-    ("OAT0NT1NZ", 2, "A"),    # depth 3, with a negated null filter
-    ("T0", 2, "B"),           # the same filter indices over another record type
-    ("AT0NT1", 2, "B"),
+    ("Z", "(vcc)", "A"),
+    ("T0", "(c)", "A"),
+    ("NT0", "(cv)", "A"),
+    ("AT0T1", "(cvc)", "A"),
+    ("OT0T1", "(rc)", "A"),
+    ("AT0NT1", "((cc)c)", "A"),      # band: T0 <= sev < T1
+    ("ONT0T1", "(c(cc)c)", "A"),
+    ("NAT0T1", "(c(cc))", "A"),
+    ("NNT0", "(crc)", "A"),          # the not_filter<not_filter<F>> specialisation
+    ("OAT0NT1NZ", "(cc)", "A"),      # depth 3, with a negated null filter
+    ("T0", "(cr)", "B"),             # the same filter indices over another record type
+    ("AT0NT1", "((vc)(cr))", "B"),
 ]
 RECS = "AB"
 KINDS = "SNC"            # structural item kinds: std::string, long long, callable
@@ -136,7 +140,18 @@ def hx(s):
 
 
 def lgw(i):
-    return "%d/%s/%d/%s" % (i, LOGGERS[i][0], LOGGERS[i][1], LOGGERS[i][2])
+    return "%d/%s/%s/%s" % (i, LOGGERS[i][0], LOGGERS[i][1], LOGGERS[i][2])
+
+
+def parse_sinks(s, i=0):
+    """sink shape text -> nested lists / leaf letters"""
+    if s[i] == "(":
+        out, i = [], i + 1
+        while s[i] != ")":
+            m, i = parse_sinks(s, i)
+            out.append(m)
+        return out, i + 1
+    return s[i], i + 1
 
 
 def rec_of(lg):
